@@ -16,6 +16,9 @@ CHECKS["C03"] = {"technique": "abstract interpretation with origin tracking: par
 CHECKS["C16"] = {"technique": "abstract interpretation + polynomial normal forms of slice/narrow/topk bounds and row-count guards; dataflow reconstruction from tagged structural operators",
   "text": "Decides the index arithmetic, axes and direction flags: TrimmedMean = mean over window [b, m-b) of the ascending row-wise sort; Krum = cdist(p=2, exact differences), ascending top-(m-f-1) minus self = m-f-2 distances summed, n_selected lowest scores, weights 1/n_selected; guards raise iff m < 2b+1 / m < f+3 / m < k; constructors reject b<0, f<0, k<1. Floating-point behaviour at 1e12 corruption and ties are not decided.",
   "note": OPS + "; torch.cdist switches to the mm expansion above 25 rows unless compute_mode forbids it"}
+CHECKS["C18"] = {"technique": "loop-carried def-use analysis, polynomial normal form of the blend coefficient / convex step, tagged-operator dataflow",
+  "text": "Five structural necessary conditions only: PCGrad tests each conflict against the vector the same loop updates, visits every other row, uses one order per row and sums the projected vectors; GradDrop draws one uniform sample per column outside the row loop and its blend coefficient normalises to 1 / leak_i; Random = softmax over the rows of randn(m); CAGrad rejects c<0 and returns 1/m + (c-dependent factor)·w or exact zeros; MGDA starts uniform and takes convex steps. All numerical clauses are not decided.",
+  "note": OPS + "; enumerated idioms — other code shapes give ANALYSIS-ERROR"}
 NA_PENDING = "check not built yet in this commit (planned, see DESIGN.md section 5)"
 NOT_APPLICABLE = {
  "C04": "Non-conflict is a numerical inequality on the outputs of a QP, a Frank-Wolfe loop and a conic solver with input-dependent allowances; no clause of it is visible in the shape of the code.",
